@@ -26,6 +26,7 @@ func vAssume(c bool)
 func vAssert(c bool, msg string)
 func vReach(tag string)
 func vYield()
+func vSetClock(ns int64)
 func vSamePoint(a, b interface{ Marshal() []byte }) bool
 func vClockMax(ns int64)
 func vQuiesce()
@@ -148,6 +149,7 @@ func vAssert(c bool, msg string) {
 }
 func vReach(tag string) {}
 func vYield()           { runtime.Gosched() }
+func vSetClock(int64)   {}
 func vSamePoint(a, b interface{ Marshal() []byte }) bool {
 	return string(a.Marshal()) == string(b.Marshal())
 }
